@@ -497,11 +497,12 @@ def gen_case(rng, K, lits, force_race=False):
             for j in stucks:
                 if replies[str(j)]["first"]["kind"] == "timeout":
                     replies[str(j)]["first"] = {"kind": "unknown"}
-        if any(replies[str(j)]["first"]["kind"] == "timeout" for j in stucks):
-            for j in pots:
-                for w in ("first", "second"):
-                    if replies[str(j)].get(w) and replies[str(j)][w]["kind"] == "timeout":
-                        replies[str(j)][w] = {"kind": "unknown"}
+        # a hanging stuck confirmation lasts as long as halmos' timeout, which also bounds every potential query started
+        # before it: "potential queries complete after the exploration" cannot be scripted then (covered by `seq`)
+        if pots:
+            for j in stucks:
+                if replies[str(j)]["first"]["kind"] == "timeout":
+                    replies[str(j)]["first"] = {"kind": "unknown"}
         early_ones = [j for j in pots if not is_late(replies[str(j)], ref)]
         late = [j for j in pots if is_late(replies[str(j)], ref)]
         rng.shuffle(early_ones)
